@@ -157,7 +157,7 @@ def keepalive_oracle(ix: Index, scn: dict) -> list[Violation]:
     stalls = bool(ix.stalls)
     last_avail = None
     for ev in ix.h:
-        if ev[3] == "d2c_frame_avail" and (close_obs is None or ev[2] < close_obs - 1e-12 or (ev[2] <= close_obs and ev[1] < ix.seq_turn[fat[0][0]])):
+        if ev[3] == "d2c_frame_avail" and not str(ev[4].get("name", "")).startswith("#") and (close_obs is None or ev[2] < close_obs - 1e-12 or (ev[2] <= close_obs and ev[1] < ix.seq_turn[fat[0][0]])):
             last_avail = ev[2]
     # safety half (also under stalls): never dropped within 4.5K of an available message
     if close_cls == "PingFailedAPIError" and last_avail is not None and close_obs - last_avail < RATIO * K - tol:
@@ -181,6 +181,14 @@ def keepalive_oracle(ix: Index, scn: dict) -> list[Violation]:
         pings_obs = [p for p in pings_obs if p < ta - tol]
         horizon = min(horizon, ta - 1e-6)
         if close_obs is not None and close_obs >= ta - tol:
+            close_obs, close_cls = None, None
+    if scn.get("abandoned_disconnect"):
+        # the graceful disconnect ran to its end after all (its own 10 s limit, or the cancellation came too late): the
+        # keepalive is judged up to the close the caller asked for
+        done = next((op for op in ix.ops if op.actor == "quit" and op.do == "disconnect" and op.s1 is not None and not op.cancelled), None)
+        if done is not None and c in ix.closed_t and ix.closed_t[c] <= done.t1 + tol and close_cls != "PingFailedAPIError":
+            horizon = min(horizon, ix.closed_t[c] - 1e-6)
+            arrivals = [a for a in arrivals if a < horizon]
             close_obs, close_cls = None, None
     close_for_model = close_obs if close_cls == "PingFailedAPIError" else None
     outcomes = model(T0, K, arrivals, horizon, tol, pings_obs, close_for_model)
@@ -209,7 +217,7 @@ def keepalive_oracle(ix: Index, scn: dict) -> list[Violation]:
                 out.append(Violation("drop-time", "early" if close_obs < cm else "late", "connection dropped at the wrong time: " + detail))
     if close_cls == "PingFailedAPIError":
         st = ix.on_stop.get(c, [])
-        if not st or st[0][1] is not False:
+        if (not st or st[0][1] is not False) and not (st and scn.get("abandoned_disconnect")):
             out.append(Violation("drop-flag", "", f"ping failure must be reported as an unexpected stop, on_stop calls: {st}"))
         if arrivals:
             gap = close_obs - arrivals[-1]
@@ -285,7 +293,26 @@ def gen_c10(rng: random.Random, stalls: bool = False) -> dict:
         for _ in range(min(200, int(end / x) + 1)):
             wsteps += [{"do": "switch_command", "key": 1, "state": bool(rng.getrandbits(1))}, {"do": "sleep", "d": x}]
         actors.append({"id": "app", "at": {"on": "state", "match": {"new": "CONNECTED"}, "delay": pick(rng, [0.0, 0.1 * K])}, "steps": wsteps})
+    if not stalls and rng.random() < 0.06 and not any(e.get("kind") in ("write_raises", "tx_block") for e in events):
+        # the peer dies in the middle of a frame (power loss while transmitting): the bytes of the unfinished frame are no
+        # message - the silence that follows is detected on schedule
+        t_cut = K * (0.5 + rng.random() * 4)
+        device.setdefault("replies", {})["PingRequest"] = ["silent"]  # (a pong behind the fragment would be garbage)
+        events[:] = [e for e in events if not (e.get("do") == "dev" and e["at"].get("delay", 0) >= t_cut)]
+        part = pick(rng, ["01", "010020", "010020aabbccdd"]) if device.get("transport") == "noise" else pick(rng, ["00", "000a", "000a1a", "00301a0102030405", "008001"])
+        events.append({"at": {"on": "state", "match": {"new": "CONNECTED"}, "delay": t_cut}, "do": "dev", "act": {"raw_hex": part, "latency": 0.0}})
+        end = t_cut + 14 * K + 5.0
+    extra: dict = {}
+    if not stalls and rng.random() < 0.08:
+        # a caller gives up on a graceful disconnect the peer never answers (wait_for / cancel): the session it could not
+        # end is still established and its keepalive goes on as if nothing had been asked
+        device.setdefault("replies", {})["DisconnectRequest"] = ["silent"]
+        x = K * (0.2 + rng.random() * 6)
+        actors.append({"id": "quit", "at": {"on": "state", "match": {"new": "CONNECTED"}, "delay": x}, "steps": [{"do": "disconnect"}]})
+        events.append({"at": {"on": "op_start", "match": {"actor": "quit", "do": "disconnect"}, "delay": pick(rng, [0.0, 0.01, min(0.3 * K, 6.0), 3.0])}, "do": "poke", "what": "cancel", "target": "quit", "phase": pick(rng, ["pre", "post"])})
+        extra["abandoned_disconnect"] = True
     return {
+        **extra,
         "family": "keepalive",
         "knobs": gen_knobs(rng),
         "client": client,
